@@ -5,13 +5,22 @@
                        (variant = false: 3 slots, shrink request when the whole
                        chain is empty) answers as a builtin map for every hash
                        function, seed stream and policy (C11)
-   (further statements are added below as the development grows.)
-   The concurrent behaviour of map.go is decided by search: the real code under
+     C03_reads_never_block  on XMachineS (the concurrent machine of map.go at the
+                       granularity of one atomic operation: spin lock in the
+                       top-hash word, value / key / value snapshot with retry,
+                       key and value pointers stored separately; replayed step by
+                       step against the real code by CORR-sched): in every
+                       reachable state a thread inside Load, the read-only fast
+                       path of doCompute or Size can take its next step, and that
+                       step is a load which changes nothing shared (also C16 for
+                       the Map variant)
+   No invariant about the cells of XMachineS is proved yet (MapOf's are: C04);
+   the concurrent behaviour of map.go is decided by the step correspondence and by search: the real code under
    the controlled scheduler (random / PCT schedules at the granularity of single
    atomic operations, tables at the grow / shrink thresholds, Clear), every
    history checked for linearizability against map[string]interface{}. *)
-From CacheV Require Import Base SpecMap TableModel TabExec Exec.
-From CacheV.proofs Require Import C11_lists C11_table C11_idx.
+From CacheV Require Import Base SpecMap TableModel TabExec Exec XMachineS.
+From CacheV.proofs Require Import C11_lists C11_table C11_idx X_maps.
 From Coq Require Import NArith.
 
 Theorem C03_sequential :
@@ -29,3 +38,24 @@ Proof.
   exact (run_refines eqd hash idx tag nslots seeds false grow_needed shrink_policy Hidx fuel ops m a m' rs).
 Qed.
 Print Assumptions C03_sequential.
+
+Theorem C03_reads_never_block :
+  forall (K V : Type) (eqd : forall a b : K, {a = b} + {a <> b}) hash idx tophash nslots seeds g sh nstripes minlen grow_only len0 todo sched t,
+    let s := fst (@srun K V eqd hash idx tophash nslots seeds g sh nstripes minlen grow_only (sinit nslots seeds nstripes len0 todo) sched) in
+    sreader_pc (h_pc s t) = true ->
+    exists s' ls, @sstep K V eqd hash idx tophash nslots seeds g sh nstripes minlen grow_only s t = Some (s', ls)
+      /\ sshared_eq s s' /\ (forall t', t' <> t -> h_pc s' t' = h_pc s t') /\ Forall (sread_label t) ls.
+Proof. exact @map_reads_never_block. Qed.
+Print Assumptions C03_reads_never_block.
+
+(* non-vacuity: a writer holds the bucket lock of key 7 (it is past the CAS), a reader of key 7 is on the read path *)
+Definition ex_run03 : @mstate nat nat :=
+  fst (@srun nat nat Nat.eq_dec (fun k _ => N.of_nat k) (fun h len => Nat.modulo (N.to_nat h) len) (fun h => h) 3%nat (fun _ => 0%N)
+             (fun _ _ => false) (fun _ _ => false) (fun _ => 1%nat) 1%nat false
+             (sinit 3%nat (fun _ => 0%N) (fun _ => 1%nat) 1%nat
+                    (fun t => if Nat.eqb t 0%nat then [SCompute 7%nat (fun _ => Some 1%nat) true false true] else [SLoad 7%nat]))
+             [0; 0; 0; 0; 0; 1; 1]%nat).
+Example C03_nonvacuous :
+  (exists cx, h_pc ex_run03 0%nat = QW_ChkTab cx 0%nat) /\ sreader_pc (h_pc ex_run03 1%nat) = true.
+Proof. split; [eexists; vm_compute; reflexivity | vm_compute; reflexivity]. Qed.
+Print Assumptions C03_nonvacuous.
